@@ -1215,6 +1215,21 @@ fn main() {
         }
         return;
     }
+    if args.extra.get("list-cli").is_some() {
+        // diagnostic mode: the deterministic CLI rows with their verdicts
+        let mut rng = Rng::new(args.seed);
+        let mut cc = cliconf::core_rows(&mut rng);
+        cc.extend(cliconf::plugin_fault_rows());
+        let cli = args.extra.get("cli").cloned().unwrap_or_default();
+        for c in &cc {
+            let v = match cliconf::run_case(&cli, &args.scratch, c, &site_class_of) {
+                cliconf::Verdict::Ok(t) => t,
+                cliconf::Verdict::Fail(s, w) => format!("FAIL {s} {w}"),
+            };
+            println!("{}\t{}\t{}", c["class"].as_str().unwrap_or(""), c["args"], v);
+        }
+        return;
+    }
     if args.extra.get("list-repeats").is_some() {
         // diagnostic mode: only the conditional-repeats family; outcome distribution (the documents are meant to be valid)
         let mut rng = Rng::new(args.seed);
@@ -1327,6 +1342,7 @@ fn main() {
     // configuration texts × file sets through the real built CLI binary
     let t_cli = std::time::Instant::now();
     let mut cc = cliconf::core_rows(&mut rng);
+    cc.extend(cliconf::plugin_fault_rows());
     cc.extend(cliconf::pairwise_rows(&mut rng));
     cc.extend(cliconf::random_rows(&mut rng, if search { 1500 } else { args.budget(100, 3000) }));
     rep.extra.insert("cli_config_cases".into(), json!(cc.len()));
